@@ -27,8 +27,11 @@ BOUND = 120
 def gen_cases(tier, seed):
     rng = random.Random(seed)
     n = 40 if tier == 'quick' else 600
-    return [{'kind': rng.choice(['list', 'dict', 'namespace', 'value', 'box', 'managed', 'concurrent']), 'ops': rng.choice([60, 150, 300]),
-             'agents': rng.choice([1, 2]), 'seed': rng.randrange(1 << 30)} for _ in range(n)]
+    cases = [{'kind': rng.choice(['list', 'dict', 'namespace', 'value', 'box', 'managed', 'concurrent']), 'ops': rng.choice([60, 150, 300]),
+              'agents': rng.choice([1, 2]), 'seed': rng.randrange(1 << 30)} for _ in range(n)]
+    # proxy lifetimes interleaved with calls (always present)
+    cases += [{'kind': 'lifetimes', 'ops': rng.choice([150, 300]), 'agents': 1 + i % 2, 'seed': rng.randrange(1 << 30)} for i in range(4 if tier == 'quick' else 60)]
+    return cases
 
 
 ARGS = [0, 1, -5, 2.5, 'a', '', 'text', None, True, (1, 2), [1, [2, 3]], {'k': 'v'}, b'bytes', b'', ('t', None), 10 ** 20]
@@ -328,6 +331,76 @@ def run_case(case):
                             viol.append({'mech': 'proxy/managed-value-is-a-copy', 'msg': f'managed_dict mutations not visible in the server: {snap}'})
                             return
                         obs['operations'] += 18
+                elif kind == 'lifetimes':
+                    # proxies come and go while calls continue: a process (one thread) lets go of every proxy it holds of this manager and later
+                    # gets a new one; a copy of a proxy is released while the original stays in use
+                    import copy
+                    import gc
+
+                    local = []
+                    reg['p'] = manager.list()
+                    agent(1, ('load', 'p', pickle.dumps(reg['p'])))  # agent 1 keeps the list alive throughout
+
+                    def some_ops(actor, handle, k, what):
+                        for _ in range(k):
+                            method, args, kwargs = gen_op('list', rng, local)
+                            exp = apply_local(local, method, args, kwargs)
+                            got = call(actor, handle, method, args, kwargs)
+                            obs['operations'] += 1
+                            if exp[0] == 'exc':
+                                obs['raising_operations'] += 1
+                            if not same(got, exp, method):
+                                viol.append({'mech': 'proxy/call-fails-after-proxies-were-released', 'msg': f'{what}: list.{method}{tuple(args)!r} via actor {actor} gave {str(got)[:300]}, direct call gives {str(exp)[:200]}'})
+                                return False
+                        return True
+
+                    for rd in range(max(4, case['ops'] // 30)):
+                        mode = ['drop-all', 'twin-dropped', 'agent-drop-all', 'agent-twin-dropped', 'copy-dropped'][rd % 5]
+                        obs['lifetime_rounds'] = obs.get('lifetime_rounds', 0) + 1
+                        if not some_ops(0, 'p', 2, 'before ' + mode) or not some_ops(1, 'p', 2, 'before ' + mode):
+                            return
+                        if mode == 'drop-all':
+                            b = pickle.dumps(reg['p'])
+                            del reg['p']
+                            gc.collect()  # this process now holds no proxy of this manager
+                            reg['p'] = pickle.loads(b)
+                            if not some_ops(0, 'p', 3, 'after this process released its last proxy of the manager and then received a new one (same thread)'):
+                                return
+                        elif mode in ('twin-dropped', 'copy-dropped'):
+                            reg['t'] = pickle.loads(pickle.dumps(reg['p'])) if mode == 'twin-dropped' else copy.copy(reg['p'])
+                            if not some_ops(0, 't', 2, 'through a second proxy of the same object'):
+                                return
+                            del reg['t']
+                            gc.collect()
+                            if not some_ops(0, 'p', 3, 'through the original proxy after a second proxy of the same object was released (same thread)'):
+                                return
+                        elif mode == 'agent-drop-all':
+                            a = 2 if 2 in agents else 1
+                            if a == 1:
+                                b = agent(1, ('dumps', 'p'))
+                                agent(1, ('drop', 'p'))
+                                agent(1, ('gc',))
+                                agent(1, ('load', 'p', b))
+                            else:
+                                agent(2, ('load', 'p', pickle.dumps(reg['p'])))
+                                if not some_ops(2, 'p', 2, 'agent 2 first use'):
+                                    return
+                                agent(2, ('drop', 'p'))
+                                agent(2, ('gc',))
+                                agent(2, ('load', 'p', pickle.dumps(reg['p'])))
+                            if not some_ops(a, 'p', 3, 'in another process, after it released its last proxy of the manager and then received a new one'):
+                                return
+                        else:
+                            agent(1, ('load', 't', pickle.dumps(reg['p'])))
+                            if not some_ops(1, 't', 2, 'agent: through a second proxy of the same object'):
+                                return
+                            agent(1, ('drop', 't'))
+                            agent(1, ('gc',))
+                            if not some_ops(1, 'p', 3, 'in another process, through the original proxy after a second proxy of the same object was released'):
+                                return
+                    got = call(0, 'p', '__getitem__', [slice(None)])
+                    if not same(got, ('val', list(local)), 'final'):
+                        viol.append({'mech': 'proxy/state-not-visible-through-every-proxy/list', 'msg': f'final state: {str(got)[:200]} vs {str(local)[:200]}'})
                 else:  # concurrent
                     reg['l'], reg['d'] = manager.list(), manager.dict()
                     share('l', list(agents))
@@ -396,7 +469,7 @@ def run_case(case):
     except watch.Inconclusive as e:
         return {'violations': viol, 'obs': obs, 'inconclusive': str(e), 'exit_after': True}
     nontrivial = obs['raising_operations'] > 0 and obs['ops_via_agents'] > 0
-    return {'violations': viol[:3], 'obs': obs, 'nontrivial': nontrivial or kind in ('managed', 'concurrent'), 'sig': hash((kind, case['seed'])) & 0xFFFFFFFFFFFF, 'exit_after': True,
+    return {'violations': viol[:3], 'obs': obs, 'nontrivial': nontrivial or kind in ('managed', 'concurrent', 'lifetimes'), 'sig': hash((kind, case['seed'])) & 0xFFFFFFFFFFFF, 'exit_after': True,
             'sample': {'kind': kind, 'agents': case['agents'], 'operations': obs['operations'], 'raising': obs['raising_operations'], 'via_agents': obs['ops_via_agents'],
                        'managed_mutations': obs['managed_mutations'], 'concurrent_ops': obs['concurrent_ops']}}
 
@@ -407,4 +480,4 @@ def decide_inconclusive(obs, results, cases):
     return None
 
 
-RULE = RULE + '; str() and list iteration through proxies; the same hosted list handed out twice, the newer proxy dropped'
+RULE = RULE + '; str() and list iteration through proxies; the same hosted list handed out twice, the newer proxy dropped; proxy lifetimes interleaved with calls: a process (one thread) releases its last proxy of the manager and receives a new one, a pickled / copy.copy twin is released while the original stays in use, in the harness process and in agents'
